@@ -11,6 +11,7 @@ import (
 	"context"
 	"crypto/sha256"
 	"crypto/sha512"
+	"encoding/base64"
 	"encoding/hex"
 	"encoding/json"
 	"fmt"
@@ -43,12 +44,32 @@ const (
 	mtDocker    = "application/vnd.docker.distribution.manifest.v2+json"
 	mtDockerL   = "application/vnd.docker.distribution.manifest.list.v2+json"
 	mtDocker1   = "application/vnd.docker.distribution.manifest.v1+json"
+	mtDocker1S  = "application/vnd.docker.distribution.manifest.v1+prettyjws"
 	mtOCIConfig = "application/vnd.oci.image.config.v1+json"
 	mtOCILayer  = "application/vnd.oci.image.layer.v1.tar+gzip"
 )
 
 var mtIDs = map[string]int{"": 0, mtOCIImage: 1, mtOCIIndex: 2, mtOCIArt: 3, mtDocker: 4, mtDockerL: 5, mtDocker1: 6, "text/plain": 7, "application/vnd.docker.distribution.manifest.v1+prettyjws": 8}
 var kinds = []string{mtOCIImage, mtOCIIndex, mtOCIArt, mtDocker, mtDockerL, mtDocker1}
+
+// bodies: signed schema1 (a JWS envelope in libtrust's "pretty" form) is generated as a body, never claimed for another body
+var bodyKinds = []string{mtOCIImage, mtOCIIndex, mtOCIArt, mtDocker, mtDockerL, mtDocker1, mtOCIImage, mtDocker, mtDocker1S}
+
+const sigMarker = `,"signatures":[`
+
+// named: the bytes a manifest's digest names - the raw bytes, except for signed schema1 where the digest (and size) are
+// those of the JWS payload, i.e. the body without the signatures member (Docker's definition, types/manifest follows it)
+func named(mt string, raw []byte) []byte {
+	if mt != mtDocker1S {
+		return raw
+	}
+	i := bytes.LastIndex(raw, []byte(sigMarker))
+	if i < 0 {
+		return raw
+	}
+	return append(append([]byte{}, raw[:i]...), '}')
+}
+func b64url(b []byte) string { return strings.TrimRight(base64.URLEncoding.EncodeToString(b), "=") }
 
 type Case struct {
 	Kind      string // new | fetch | dir | repush | edit
@@ -185,12 +206,27 @@ func genBody(r *lib.Rand, c Case) []byte {
 		f = []kv{{"schemaVersion", "1"}, {"name", jstr("proj/app")}, {"tag", jstr("v1")}, {"architecture", jstr("amd64")},
 			{"fsLayers", arr(r, []string{obj(r, false, []kv{{"blobSum", jstr(sha("sha256", []byte(uniq+"-l0")))}})})},
 			{"history", arr(r, []string{obj(r, false, []kv{{"v1Compatibility", jstr(`{"id":"x"}`)}})})}}
+	case mtDocker1S:
+		f = []kv{{"schemaVersion", "1"}, {"name", jstr("proj/app")}, {"tag", jstr("v1")}, {"architecture", jstr("amd64")},
+			{"fsLayers", arr(r, []string{obj(r, false, []kv{{"blobSum", jstr(sha("sha256", []byte(uniq+"-l0")))}})})},
+			{"history", arr(r, []string{obj(r, false, []kv{{"v1Compatibility", jstr(`{"id":"x"}`)}})})}}
 	}
-	if !c.OmitMT && c.MT != mtDocker1 {
+	if !c.OmitMT && c.MT != mtDocker1 && c.MT != mtDocker1S {
 		f = append(f, kv{"mediaType", jstr(c.MT)})
 	}
 	extra()
 	b := []byte(obj(r, r.Chance(70), f))
+	if c.MT == mtDocker1S {
+		// payload = b; the envelope inserts the signatures member before the closing brace and records, in every
+		// signature's protected header, where the payload was cut and what followed
+		i := bytes.LastIndexByte(b, '}')
+		prot := b64url([]byte(fmt.Sprintf(`{"formatLength":%d,"formatTail":"%s","time":"2026-01-01T00:00:00Z"}`, i, b64url([]byte("}")))))
+		var sigs []string
+		for k := 0; k < 1+r.Intn(2); k++ {
+			sigs = append(sigs, fmt.Sprintf(`{"header":{"alg":"ES256"},"signature":"%s","protected":"%s"}`, b64url(r.Bytes(24)), prot))
+		}
+		b = []byte(string(b[:i]) + sigMarker + strings.Join(sigs, ",") + "]}")
+	}
 	if r.Chance(30) {
 		b = append(b, '\n')
 	}
@@ -205,12 +241,14 @@ func detect(c Case) string {
 	if c.Malformed {
 		return ""
 	}
-	if !c.OmitMT && c.MT != mtDocker1 {
+	if !c.OmitMT && c.MT != mtDocker1 && c.MT != mtDocker1S {
 		return c.MT
 	}
 	switch c.MT {
 	case mtDocker1:
 		return mtDocker1
+	case mtDocker1S:
+		return mtDocker1S
 	case mtOCIImage:
 		return mtOCIImage
 	case mtDocker:
@@ -272,14 +310,15 @@ func observe(m manifest.Manifest, err error, raw []byte) obsT {
 	if d.Digest.Algorithm() == digest.SHA512 {
 		a, o.alg = "sha512", 1
 	}
+	nb := named(d.MediaType, raw) // what the digest and size speak of (the JWS payload for signed schema1)
 	switch d.Digest.String() {
-	case sha(a, raw):
+	case sha(a, nb):
 		o.dg = o.alg*100 + 1
 	default:
 		o.dg = o.alg*100 + 9
 	}
 	o.size = 8
-	if d.Size == int64(len(raw)) {
+	if d.Size == int64(len(nb)) {
 		o.size = 7
 	}
 	rb, _ := m.RawBody()
@@ -298,7 +337,7 @@ func (o obsT) coq() string {
 // the oracle on an outcome, independent of the model
 func oracle(c Case, o obsT, raw []byte, first string, res *lib.Result, where string) {
 	bodyMT := ""
-	if !c.OmitMT && c.MT != mtDocker1 && !c.Malformed {
+	if !c.OmitMT && c.MT != mtDocker1 && c.MT != mtDocker1S && !c.Malformed {
 		bodyMT = c.MT
 	}
 	if o.ok {
@@ -338,7 +377,7 @@ func oracle(c Case, o obsT, raw []byte, first string, res *lib.Result, where str
 	if given != "" && given != c.MT {
 		return
 	}
-	if given == "" && bodyMT == "" && c.MT != mtDocker1 && c.MT != mtOCIImage && c.MT != mtDocker && c.MT != mtOCIIndex && c.MT != mtDockerL {
+	if given == "" && bodyMT == "" && c.MT != mtDocker1 && c.MT != mtDocker1S && c.MT != mtOCIImage && c.MT != mtDocker && c.MT != mtOCIIndex && c.MT != mtDockerL {
 		return // nothing says what it is
 	}
 	if given == "" && bodyMT == "" && (c.MT == mtOCIIndex) {
@@ -370,7 +409,7 @@ func firstOf(c Case) string {
 func coqNew(c Case, o obsT, raw []byte) string {
 	// which media types the body parses as: any JSON object unmarshals into any of the manifest structs; schema1 needs schemaVersion 1 only by convention
 	bodyMT := 0
-	if !c.OmitMT && c.MT != mtDocker1 && !c.Malformed {
+	if !c.OmitMT && c.MT != mtDocker1 && c.MT != mtDocker1S && !c.Malformed {
 		bodyMT = mtIDs[c.MT]
 	}
 	det := 0
@@ -378,6 +417,8 @@ func coqNew(c Case, o obsT, raw []byte) string {
 		switch c.MT {
 		case mtDocker1:
 			det = mtIDs[mtDocker1]
+		case mtDocker1S:
+			det = mtIDs[mtDocker1S]
 		case mtOCIImage:
 			det = mtIDs[mtOCIImage]
 		case mtDocker:
@@ -404,25 +445,26 @@ func runNew(c Case, res *lib.Result) string {
 	var opts []manifest.Opts
 	opts = append(opts, manifest.WithRaw(raw))
 	d := descriptor.Descriptor{MediaType: c.MTDesc}
-	if e, _ := expectOf(c.EDesc, raw); e != "" {
+	nm := named(c.MT, raw)
+	if e, _ := expectOf(c.EDesc, nm); e != "" {
 		d.Digest = e
 		if r.Bool() {
-			d.Size = int64(len(raw))
+			d.Size = int64(len(nm))
 		} else if r.Chance(30) {
-			d.Size = int64(len(raw)) + 3 // a wrong size claim must not survive either
+			d.Size = int64(len(nm)) + 3 // a wrong size claim must not survive either
 		}
 	}
 	if d.Digest != "" || d.MediaType != "" {
 		opts = append(opts, manifest.WithDesc(d))
 	}
 	rf, _ := ref.New("reg.example/proj/app:v1")
-	if e, _ := expectOf(c.ERef, raw); e != "" {
+	if e, _ := expectOf(c.ERef, nm); e != "" {
 		rf = rf.SetDigest(e.String())
 	}
 	opts = append(opts, manifest.WithRef(rf))
 	if c.EHdr != "" || c.MTHdr != "" {
 		h := http.Header{}
-		if e, _ := expectOf(c.EHdr, raw); e != "" {
+		if e, _ := expectOf(c.EHdr, nm); e != "" {
 			h.Set("Docker-Content-Digest", e.String())
 		}
 		if c.MTHdr != "" {
@@ -468,7 +510,7 @@ func runFetch(c Case, res *lib.Result) string {
 			if c.MTHdr != "" {
 				h["Content-Type"] = c.MTHdr
 			}
-			if e, _ := expectOf(c.EHdr, raw); e != "" {
+			if e, _ := expectOf(c.EHdr, named(c.MT, raw)); e != "" {
 				h["Docker-Content-Digest"] = e.String()
 			}
 			if req.Method == "HEAD" {
@@ -479,7 +521,7 @@ func runFetch(c Case, res *lib.Result) string {
 		return nil
 	}
 	name := "a.example/proj/app:v1"
-	if e, _ := expectOf(c.ERef, raw); e != "" {
+	if e, _ := expectOf(c.ERef, named(c.MT, raw)); e != "" {
 		name = "a.example/proj/app@" + e.String()
 	}
 	rf, _ := ref.New(name)
@@ -752,6 +794,7 @@ func genCase(r *lib.Rand) Case {
 	switch k := r.Intn(100); {
 	case k < 40:
 		c.Kind = "new"
+		c.MT = lib.Pick(r, bodyKinds)
 		c.EDesc, c.ERef, c.EHdr = lib.Pick(r, expects), lib.Pick(r, expects), lib.Pick(r, expects)
 		if r.Chance(60) {
 			c.MTDesc = c.MT
@@ -763,8 +806,10 @@ func genCase(r *lib.Rand) Case {
 		} else if r.Chance(20) {
 			c.MTHdr = lib.Pick(r, kinds)
 		}
+		signedOnly(&c)
 	case k < 62:
 		c.Kind = lib.Pick(r, []string{"fetch", "fetch", "repush"})
+		c.MT = lib.Pick(r, bodyKinds)
 		c.ERef, c.EHdr = lib.Pick(r, []string{"", "", "ok256", "ok512", "bad256"}), lib.Pick(r, expects)
 		if r.Chance(75) {
 			c.MTHdr = c.MT
@@ -774,6 +819,7 @@ func genCase(r *lib.Rand) Case {
 		if c.Kind == "repush" {
 			c.Malformed = false
 		}
+		signedOnly(&c)
 	case k < 68:
 		c.Kind = "orig"
 		c.Malformed = false
@@ -793,6 +839,20 @@ func genCase(r *lib.Rand) Case {
 		}
 	}
 	return c
+}
+
+// a signed schema1 body has two candidate digests (of the envelope, of the payload): it is offered only with its own
+// media type or none, so that "the right digest" stays one value per case
+func signedOnly(c *Case) {
+	if c.MT != mtDocker1S {
+		return
+	}
+	if c.MTDesc != "" {
+		c.MTDesc = mtDocker1S
+	}
+	if c.MTHdr != "" {
+		c.MTHdr = mtDocker1S
+	}
 }
 
 // runOrig: a manifest built from a struct, optionally together with raw bytes and a descriptor claim
@@ -872,7 +932,7 @@ func runCase(c Case, tmp string, res *lib.Result) string {
 
 func Run(o lib.Opts) {
 	res := lib.NewResult("C02", o.Tier, o.Seed)
-	res.Rule = "one splitmix64 stream: bodies of 6 media types (OCI image / index / artifact, Docker schema2 image / list, schema1 unsigned) from an independent JSON writer (70% shuffled key order, random whitespace, 40% unknown fields, embedded data, subject, annotations with non-ASCII and escapes, trailing newline, 25% without mediaType, 6% cut short); 40% manifest.New with each of descriptor / reference / header digest absent, right or wrong in sha256 or sha512, media type given in descriptor and/or header (right, another manifest type, text/plain), wrong size claims; 22% RegClient.ManifestGet from a model registry serving the body with chosen Docker-Content-Digest and Content-Type, a third of them pushed on to a second registry and compared byte for byte; 12% OCI layouts whose file holds other bytes than its name says (by tag and by digest); 26% programs of 1-8 setter calls (annotation set/delete, config, layers, manifest list, subject set/clear, whole-struct replacement with and without a media type) on sha256 and sha512 manifests, re-checked after every step; non-trivial = wrong expectation, corrupt file, or edit program; distinct by case"
+	res.Rule = "one splitmix64 stream: bodies of 7 media types (OCI image / index / artifact, Docker schema2 image / list, schema1 unsigned and signed - a libtrust pretty-JWS envelope whose digest and size are those of its payload) from an independent JSON writer (70% shuffled key order, random whitespace, 40% unknown fields, embedded data, subject, annotations with non-ASCII and escapes, trailing newline, 25% without mediaType, 6% cut short); 40% manifest.New with each of descriptor / reference / header digest absent, right or wrong in sha256 or sha512, media type given in descriptor and/or header (right, another manifest type, text/plain), wrong size claims; 22% RegClient.ManifestGet from a model registry serving the body with chosen Docker-Content-Digest and Content-Type, a third of them pushed on to a second registry and compared byte for byte; 12% OCI layouts whose file holds other bytes than its name says (by tag and by digest); 26% programs of 1-8 setter calls (annotation set/delete, config, layers, manifest list, subject set/clear, whole-struct replacement with and without a media type) on sha256 and sha512 manifests, re-checked after every step; non-trivial = wrong expectation, corrupt file, or edit program; distinct by case"
 	if o.Replay != "" {
 		var f struct{ Case Case }
 		b, err := os.ReadFile(o.Replay)
